@@ -31,10 +31,11 @@ Proof.
 Qed.
 Print Assumptions C01_refuted.
 
-(* Partial 1 (executable classifier): histories in which no action outputs a directory. *)
+(* Partial 1 (executable classifier): histories in which no action outputs a directory (earlier builds of
+   the history may even have used the cache). *)
 Theorem C01_partial :
   forall (h : list hstep) (r : repo) (req : list str),
-    wf_history (h ++ [HBuild false r req]) -> cache_free h = true ->
+    wf_history (h ++ [HBuild false r req]) ->
     (forall t, In t (history_targets (h ++ [HBuild false r req])) -> defect_class t = None) ->
     let incr := plz_build false r req (run_history h empty_store) in
     let clean := plz_build false r req empty_store in
@@ -42,7 +43,7 @@ Theorem C01_partial :
     /\ rn_failed incr = rn_failed clean
     /\ forall t, In t (r_targets (restrict r req)) -> ~ In (t_label t) (rn_failed clean) ->
        outs_of (rn_st incr) t = outs_of (rn_st clean) t.
-Proof. exact incremental_is_clean_files. Qed.
+Proof. exact (incremental_is_clean_files false). Qed.
 Print Assumptions C01_partial.
 
 (* Partial 2 (path_inj as an explicit hypothesis): for ANY class `good` of trees that contains the source
@@ -56,14 +57,14 @@ Theorem C01_partial_path_inj :
     (forall c, good (File false c)) ->
     (forall t ins news, U t -> Forall good (map snd ins) -> act (t_kind t) (outputs t) ins = Some news -> Forall good (map snd news)) ->
     forall h r req,
-      forallb step_wf (h ++ [HBuild false r req]) = true -> cache_free h = true ->
+      forallb step_wf (h ++ [HBuild false r req]) = true ->
       (forall t, In t (history_targets (h ++ [HBuild false r req])) -> U t) ->
       let incr := plz_build false r req (run_history h empty_store) in
       let clean := plz_build false r req empty_store in
       rn_failed incr = rn_failed clean
       /\ forall t, In t (r_targets (restrict r req)) -> ~ In (t_label t) (rn_failed clean) ->
          outs_of (rn_st incr) t = outs_of (rn_st clean) t.
-Proof. exact incremental_is_clean. Qed.
+Proof. intros U good H1 H2 H3 H4. exact (incremental_is_clean U good H1 H2 H3 H4 false). Qed.
 Print Assumptions C01_partial_path_inj.
 
 (* Non-vacuity: a three-step history (build; edit a source and add a dependent target; rm -rf plz-out is
